@@ -243,6 +243,37 @@ func VerifC05OtherFile() {
 		}
 		return
 	}
+	if present && vrtChoice("backReference", 2) == 1 {
+		// main:app -> other:app -> main:shared : the chain comes back to the first file without being a cycle;
+		// the other file has a homonymous `shared` that must not be picked
+		back := "../w/compose.yaml"
+		if oRel == "other" {
+			back = "../compose.yaml"
+		}
+		other["services"].(map[string]any)["app"] = map[string]any{"extends": map[string]any{"file": back, "service": "shared"}, "hostname": "mid"}
+		other["services"].(map[string]any)["shared"] = map[string]any{"image": "decoy", "build": map[string]any{"context": "./decoy"}}
+		vrtYamlFile(oAbs+"/compose.yaml", other)
+		mainDoc := func() map[string]any {
+			return map[string]any{"services": map[string]any{
+				"app":    map[string]any{"extends": map[string]any{"file": oRel + "/compose.yaml", "service": "app"}, "user": "u"},
+				"shared": map[string]any{"image": "real", "build": map[string]any{"context": "./ctx" + v}},
+			}}
+		}
+		vrtYamlFile(root+"/w/compose.yaml", mainDoc())
+		m, err := tcLoad(nil, nil, mainDoc())
+		vrtObserve("err", err != nil)
+		if err != nil {
+			vrtObserve("msg", err.Error())
+		}
+		vrtAssert("acyclic-back-reference-loads", err == nil)
+		if err == nil {
+			s := tcSvc(m, "app")
+			vrtAssert("back-reference-values", s["image"] == any("real") && s["hostname"] == any("mid") && s["user"] == any("u"))
+			b, _ := s["build"].(map[string]any)
+			vrtAssert("back-reference-path-anchored-at-first-file", b["context"] == any(root+"/w/ctx"+v))
+		}
+		return
+	}
 	target := []string{"x", "b", "zz"}[vrtChoice("target", 3)]
 	main := map[string]any{"services": map[string]any{
 		"a": map[string]any{"extends": map[string]any{"service": "b"}, "user": "u"},
